@@ -9,6 +9,7 @@ import JominiModel.Proofs.TextTapeFaithful
 import JominiModel.Proofs.TextTapeTotal
 import JominiModel.Proofs.TextTapeFaithful2
 import JominiModel.Proofs.TextTapeFaithful3
+import JominiModel.Proofs.TextTapeBlank
 import JominiModel.Generated.Tables
 /-
 C01 — Text tape mirrors the document's structure regardless of layout.
@@ -74,18 +75,50 @@ theorem C01_parse_total (input : Bytes) :
     (∃ T b, parse input = .ok T b) ∨ (∃ e, parse input = .err e) :=
   parse_total input
 
-/-
-Full statement (DESIGN §8 C01): `step st (w ++ d) = step st d` at EVERY point where the code
-calls `skip_ws_t`: (1) loop head, (2) after `{` in Key, (3) after `{` in ParseOpen, (4) after the
-first scalar of a container, (5) inside parameter definitions.
-Proved: (1), (2), (3).  Missing: (4) and (5) — there the blanks follow a scalar that was just
-pushed, so the tapes differ in that scalar's recorded position and the statement needs the
-position-erasing simulation of `C01_layout_independent` (not proved yet).
--/
-/-- (1) one iteration of the main loop is invariant under blanks in front of the cursor. -/
-theorem C01_step_blank_partial (w d : Bytes) (hw : Blank w) (n : Nat) (st : St) :
-    step n st (w ++ d) = step n st d :=
-  step_blank hw n st d
+/-- C01_step_blank, at full strength: blanks (space, tab, CR/LF, `;`, comments, in any mixture)
+are invisible at EVERY point where the code calls `skip_ws_t`:
+(1) the loop head; (2) behind `{` in Key; (3) behind `{` in ParseOpen (same result, or — non-empty
+inner container, the `{` is left for ArrayValue — the same new state with the respective cursor);
+(4) behind the first scalar of a container; (5) inside parameter definitions, behind `[[name]`
+and behind the key / value that follows.  At (4) and (5) the blanks follow a scalar that has just
+been pushed, so the results agree up to that scalar's recorded position (`Step.erase`); they
+are stated where a separator is lexically permitted (an unquoted scalar is followed by a
+boundary byte with and without the blanks). -/
+theorem C01_step_blank (w : Bytes) (hw : Blank w) :
+    (∀ n st d, step n st (w ++ d) = step n st d) ∧
+    (∀ st rest, stepKey st (123 :: (w ++ rest)) = stepKey st (123 :: rest)) ∧
+    (∀ st rest, stepParseOpen st (123 :: (w ++ rest)) = stepParseOpen st (123 :: rest) ∨
+      ∃ st', stepParseOpen st (123 :: (w ++ rest)) = .cont st' (123 :: (w ++ rest)) ∧
+             stepParseOpen st (123 :: rest) = .cont st' (123 :: rest)) ∧
+    (∀ st (s : Scal) r, s.Valid → (s.quoted = false → StartsBoundary r) →
+      (s.quoted = false → StartsBoundary (w ++ r)) →
+      (stepParseOpen st (s.text ++ (w ++ r))).erase = (stepParseOpen st (s.text ++ r)).erase) ∧
+    (∀ mixed tape parent (isU : Bool) name Y, ParamName name →
+      (paramDefBody mixed tape parent
+        (91 :: 91 :: ((if isU then [33] else []) ++ (name ++ 93 :: (w ++ Y))))).erase =
+      (paramDefBody mixed tape parent
+        (91 :: 91 :: ((if isU then [33] else []) ++ (name ++ 93 :: Y)))).erase) ∧
+    (∀ mixed tape parent (isU : Bool) name (s : Scal) w1 R, ParamName name → s.Valid → s.quoted = false →
+      Blank w1 → StartsBoundary R → StartsBoundary (w ++ R) →
+      (paramDefBody mixed tape parent
+        (91 :: 91 :: ((if isU then [33] else []) ++ (name ++ 93 :: (w1 ++ (s.text ++ (w ++ R))))))).erase =
+      (paramDefBody mixed tape parent
+        (91 :: 91 :: ((if isU then [33] else []) ++ (name ++ 93 :: (w1 ++ (s.text ++ R)))))).erase) :=
+  ⟨fun n st d => step_blank hw n st d,
+   fun st rest => stepKey_open_blank hw st rest,
+   fun st rest => stepParseOpen_open_blank hw st rest,
+   fun _ _ _ hs hr hwr => stepParseOpen_first_scalar_blank hs hw hr hwr,
+   fun mixed tape parent isU _ Y hn => paramDefBody_name_blank mixed tape parent isU hn hw Y,
+   fun mixed tape parent isU _ _ _ _ hn hs hq hw1 hR hwR =>
+     paramDefBody_kv_blank mixed tape parent isU hn hs hq hw1 hw hR hwR⟩
+
+/-- the hypotheses of sites (4)/(5) are satisfiable: scalar `ab`, name `x`, rest `}`… -/
+example : (Scal.mk false [97, 98]).Valid ∧ ParamName [120] ∧ StartsBoundary [125] ∧
+    StartsBoundary ([32] ++ [125]) :=
+  ⟨by simp only [Scal.Valid, Bool.false_eq_true, if_false]
+      exact ⟨by decide +kernel, 97, [98], rfl, by decide +kernel, by decide, by decide⟩,
+   ⟨by simp, by decide +kernel⟩, .inr ⟨125, [], rfl, by decide +kernel⟩,
+   .inr ⟨32, [125], rfl, by decide +kernel⟩⟩
 
 /-- (2) Key state, blanks behind a `{` (ghost object / header). -/
 theorem C01_step_blank_key_open (w rest : Bytes) (hw : Blank w) (st : St) :
